@@ -385,7 +385,8 @@ template<class T, class HF> struct Runner
       int t = -1, u = -1;
       bool mpLike = false;
 
-      if (c == "put") {t=I(1); int prev=0; bool rep=false; (void) tab[t]->Put(I(2), I(3), prev, &rep); if (rep) r << "v" << prev; else r << "none"; id_put(t, I(2), I(3));}
+      if (c == "put") {t=I(1); int prev=0; bool rep=false; const status_t ps = tab[t]->Put(I(2), I(3), prev, &rep); if (rep) r << "v" << prev; else r << "none"; id_put(t, I(2), I(3));
+                       if (ps.IsError()) fail("Put reports an error on a table that must behave as an ideal map", n, c);}
       else if (c == "pia") {t=I(1); int * p = tab[t]->PutIfNotAlreadyPresent(I(2), I(3)); r << (p ? "b1" : "b0"); if (ideal_find(ideal[t], I(2)) < 0) id_put(t, I(2), I(3));}
       else if (c == "gop") {t=I(1); int * p = tab[t]->GetOrPut(I(2), I(3)); if (p) r << "v" << *p; else r << "none"; if (ideal_find(ideal[t], I(2)) < 0) id_put(t, I(2), I(3));}
       else if (c == "paf") {t=I(1); r << "s" << st(tab[t]->PutAtFront(I(2), I(3))); id_put(t, I(2), I(3)); id_move(t, I(2), 0);}
@@ -493,6 +494,30 @@ template<class T, class HF> struct Runner
          if (t != u) {const Ideal mine = ideal[t]; for (size_t i=0; i<mine.size(); i++) if (ideal_find(ideal[u], mine[i].first) < 0) id_remove(t, mine[i].first);}
       }
       else if (c == "des") {t=I(1); delete tab[t]; tab[t] = new T; r << "-"; id_clear(t); detach_travs_of(t); autoOn[t] = true;}
+      else if (c == "mvc")   // move construction: the new object takes the contents AND the iterators of tab[u]
+      {
+         t=I(1); u=I(2); r << "-";
+         if (t != u)
+         {
+            T * nt = new T(std::move(*tab[u]));
+            delete tab[t]; tab[t] = nt;
+            id_clear(t); detach_travs_of(t); autoOn[t] = true;
+            std::swap(ideal[t], ideal[u]); std::swap(birth[t], birth[u]);
+            sortedExp[t] = sortedExp[u]; sortedExp[u] = true;
+            for (int i=0; i<NI; i++) if (trav[i].owner == u) trav[i].owner = t;
+         }
+      }
+      else if (c == "mva")   // move assignment (documented as SwapContents)
+      {
+         t=I(1); u=I(2); if (t != u) *tab[t] = std::move(*tab[u]); r << "-";
+         if (t != u)
+         {
+            std::swap(ideal[t], ideal[u]); std::swap(birth[t], birth[u]);
+            const bool sx = sortedExp[t]; sortedExp[t] = sortedExp[u]; sortedExp[u] = sx;
+            for (int i=0; i<NI; i++) {if (trav[i].owner == t) trav[i].owner = u; else if (trav[i].owner == u) trav[i].owner = t;}
+         }
+      }
+      else if (c == "pre") {t=I(1); delete tab[t]; tab[t] = new T(PreallocatedItemSlotsCount(U(2))); r << "-"; id_clear(t); detach_travs_of(t); autoOn[t] = true;}
       // ---- iterators
       else if ((c == "in")||(c == "ia"))
       {
@@ -579,7 +604,8 @@ template<class T, class HF> struct Runner
                {
                   bool ch = order_changed(before[x], birthBefore[x], ideal[x], birth[x]);
                   // content that moved to another table (swap) is compared with where it came from
-                  if ((c == "swp")&&(t != u)&&((x == t)||(x == u))) ch = order_changed(before[(x==t)?u:t], birthBefore[(x==t)?u:t], ideal[x], birth[x]);
+                  if (((c == "swp")||(c == "mva"))&&(t != u)&&((x == t)||(x == u))) ch = order_changed(before[(x==t)?u:t], birthBefore[(x==t)?u:t], ideal[x], birth[x]);
+                  if ((c == "mvc")&&(t != u)&&(x == t)) ch = order_changed(before[u], birthBefore[u], ideal[x], birth[x]);
                   for (int i=0; i<NI; i++) if (trav[i].owner == x)
                   {
                      if (ch) trav[i].active = false;
